@@ -64,8 +64,13 @@ def extract(config="default", repo=None):
         shutil.rmtree(tmp, ignore_errors=True)
         raise Infra("fact extraction failed for config %s:\n%s" % (config, msg))
     os.makedirs(CACHE, exist_ok=True)
-    shutil.rmtree(out, ignore_errors=True)
-    os.rename(tmp, out)
+    try:
+        os.rename(tmp, out)
+    except OSError:
+        # a concurrent check extracted the same tree first: its result is identical (same content hash)
+        shutil.rmtree(tmp, ignore_errors=True)
+        if not (os.path.exists(fact) and os.path.getsize(fact) > 0):
+            raise Infra("could not install the extracted facts at %s" % out)
     _gc()
     return fact, time.time() - t0, False
 
